@@ -1324,7 +1324,7 @@ theorem lstrip_all_space (s : Str) (h : s.all isPySpace = true) : lstrip s = [] 
     simp only [lstrip, List.dropWhile_cons, h.1, if_true]; exact ih h.2
 
 /-- the date format contains a blank: the whole cell, stripped, is handed to `strptime` -/
-theorem dateToken_whole (spec : Csv.Spec) (pre tok post : Str) (hfmt : spec.dateFormat.contains ' ' = true)
+theorem dateToken_whole (spec : Csv.Spec) (pre tok post : Str) (hfmt : spec.dateFormat.any isPySpace = true)
     (hhead : ∀ c, tok.head? = some c → isPySpace c = false) (hlast : ∀ c, tok.getLast? = some c → isPySpace c = false)
     (hpre : pre.all isPySpace = true) (hpost : post.all isPySpace = true) :
     dateToken spec (strip (pre ++ tok ++ post)) = some tok := by
@@ -1386,7 +1386,7 @@ theorem rstrip_prefix (s : Str) : rstrip s <+: s := by
 
 /-- the date format contains no blank: the first white-space separated token of the cell is handed to `strptime` - blanks
 around the date and a trailing token (a weekday, a time …) are cut off -/
-theorem dateToken_first (spec : Csv.Spec) (pre tok post : Str) (hfmt : spec.dateFormat.contains ' ' = false)
+theorem dateToken_first (spec : Csv.Spec) (pre tok post : Str) (hfmt : spec.dateFormat.any isPySpace = false)
     (hne : tok ≠ []) (htok : NoSpace tok) (hpre : pre.all isPySpace = true)
     (hpost : post = [] ∨ ∃ c r, post = c :: r ∧ isPySpace c = true) :
     dateToken spec (strip (pre ++ tok ++ post)) = some tok := by
@@ -1695,12 +1695,12 @@ theorem scan_noSpaces (fmt : Str) (hfmt : fmt.all (fun c => !isPySpace c) = true
             simpa [noSpacesItems, isSpaces] using ih r hl' hall.2 its hr
   exact key fmt.length fmt (Nat.le_refl _) hfmt
 
-theorem no_blank_of_noSpaces (fmt : Str) (hfmt : fmt.all (fun c => !isPySpace c) = true) : fmt.contains ' ' = false := by
-  cases h : fmt.contains ' ' with
-  | false => rfl
-  | true =>
-    have hm : ' ' ∈ fmt := by simpa using h
-    have := (List.all_eq_true.mp hfmt) ' ' hm
-    revert this; decide
+theorem no_blank_of_noSpaces (fmt : Str) (hfmt : fmt.all (fun c => !isPySpace c) = true) : fmt.any isPySpace = false := by
+  induction fmt with
+  | nil => rfl
+  | cons c cs ih =>
+    simp only [List.all_cons, Bool.and_eq_true, Bool.not_eq_true'] at hfmt
+    simp only [List.any_cons, hfmt.1, Bool.false_or]
+    exact ih hfmt.2
 
 end TallyVerif.Strptime
